@@ -36,6 +36,8 @@ MPN_EXTENTS["__gmpn_store"] = [(0, [(1, 1)])]
 MPN_EXTENTS["__gmpn_tdiv_qr"] = [(1, [(6, 1)])]
 MPN_EXTENTS["__gmpn_divrem_1"] = [(0, [(1, 1), (3, 1)])]
 
+import re as _re
+_ARR = _re.compile(r"^(?:mp_limb_t|unsigned long)\[(\d+)\]$")
 OBJ = {"__mpz_struct": "mpz", "__mpq_struct": "mpq", "__mpf_struct": "mpf"}
 SCALAR_FIELDS = {"_mp_size", "_mp_alloc", "_mp_prec", "_mp_exp"}
 REALLOC_FNS = {"__gmpz_realloc", "__gmpz_realloc2", "_mpz_realloc"}
@@ -86,7 +88,7 @@ def rtype(r):
 
 
 class State:
-    __slots__ = ("obj", "limb", "written", "env", "alloc", "off", "flags")
+    __slots__ = ("obj", "limb", "written", "env", "alloc", "off", "flags", "views")
 
     def __init__(self, obj=None, limb=None, written=None, env=None, alloc=None, off=None):
         self.obj = dict(obj or {})          # var id -> frozenset(regions)
@@ -96,10 +98,12 @@ class State:
         self.alloc = dict(alloc or {})      # region -> (Term lower bound of its allocation in limbs, line)
         self.off = dict(off or {})          # limb pointer var id -> Term offset from the base of its (single) region
         self.flags = {}                     # boolean local -> parameter pairs that differ when the flag is false
+        self.views = {}                     # local object region -> parameter regions whose limb block it borrows (PTR (t) = PTR (u))
 
     def copy(self):
         s = State(self.obj, self.limb, {k: dict(v) for k, v in self.written.items()}, self.env, self.alloc, self.off)
         s.flags = dict(self.flags)
+        s.views = dict(self.views)
         return s
 
     def join(self, o, where=0):
@@ -130,6 +134,11 @@ class State:
         for k in list(self.flags):
             if o.flags.get(k) != self.flags[k]:
                 del self.flags[k]
+                ch = True
+        for k, v in o.views.items():
+            n = self.views.get(k, frozenset()) | v
+            if n != self.views.get(k):
+                self.views[k] = n
                 ch = True
         for k, v in o.obj.items():
             n = self.obj.get(k, frozenset()) | v
@@ -182,6 +191,9 @@ class Analysis:
         self.reset_reports = lambda: None
         self.tmp_backed = set()
         self.exceptions = set()
+        self.arrnames = {}
+        self.implied = []                # (Term >= 0 over entry values of parameters, line, block id): local-array extents
+        self.cur_block = None
         self.summarised = set()          # __dst variables of inline fill / copy macros (one obligation per macro use)
         self._fills = {}
         self.static_noalias = set()      # frozenset((i, j)) parameter pairs that no call site of a static function aliases
@@ -270,6 +282,14 @@ class Analysis:
             ok = objkind(e.get("ct", ""))
             if ok and ok[3]:                     # local mpz_t decays to a pointer to itself
                 return ("obj", frozenset([("L", e["id"], "", ok[0])]))
+            m_ = _ARR.match(e.get("ct", "")) if e.get("param") is None and not e.get("global") else None
+            if m_:
+                # a local limb array: a block of exactly K limbs (R-EXTENT), the variable is its base pointer
+                r = ("S", e["id"], "", "arr")
+                self.arrnames[e["id"]] = e.get("name", "?")
+                if r not in st.alloc:
+                    st.alloc[r] = (T(int(m_.group(1))), e.get("line", 0) or 0)
+                return ("limb", frozenset([(r, True, 0, True)]))
             if e.get("param") is not None and "*" in e.get("ct", "") and e["id"] not in self.pinfo:
                 ct = e.get("ct", "")
                 if "unsigned long *" in ct:
@@ -388,6 +408,8 @@ class Analysis:
             return None
         k = e.get("k")
         if k == "var":
+            if e["id"] not in st.off and e.get("param") is None and not e.get("global") and _ARR.match(e.get("ct", "")):
+                return T(0)
             return st.off.get(e["id"])
         if k == "member" and e["field"] == "_mp_d":
             return T(0)
@@ -429,6 +451,11 @@ class Analysis:
         d = tconst(tadd(end, E, -1)) if end is not None else None
         if d is None:
             self.stats.bump("extent_undecided", line)
+            if r[0] == "S" and end is not None:
+                need = tadd(E, end, -1)                     # size - end >= 0
+                pids = {p["id"] for p in self.params}
+                if need[1] and all(sym[0] == "v" and sym[2] == 0 and sym[1] in pids for sym, _ in need[1]):
+                    self.implied.append((need, line, self.cur_block, self.arrnames.get(r[1], "?")))
         elif d <= 0:
             self.stats.bump("extent_proved", line)
         elif ("R-EXTENT", self.fn["name"], self.rname(r)) in self.exceptions:
@@ -484,6 +511,8 @@ class Analysis:
             return n + ({"": "", "n": "->_mp_num", "d": "->_mp_den"}[r[2]])
         if r[0] == "L":
             return "local#%d%s" % (r[1], r[2])
+        if r[0] == "S":
+            return "local array %s" % self.arrnames.get(r[1], "#%d" % r[1])
         return "%s@%d" % (r[0], r[1])
 
     def write(self, regions, comp, st, line):
@@ -626,6 +655,23 @@ class Analysis:
                     self.write({r for (r, f, l, b) in v[1]}, "limbs", st, line)
                     if isptr and not (c or "").startswith("__builtin_") and c not in self.READONLY_DESPITE_TYPE:
                         self.const_write({r for (r, f, l, b) in v[1]}, st, ne, line, "limb block is passed to %s as a non-const pointer" % (c or "a callee"))
+        # a borrowed view (a local mpz_t whose limb pointer is an operand's) handed to an mpz function together with a destination that
+        # may be that operand: the callee recognises "same variable" by object identity, which the view defeats, yet the limbs are shared
+        if (c or "").startswith("__gmpz_") and st.views:
+            for i, v in enumerate(vals):
+                if not v or v[0] != "obj" or not (ps[i].get("pc") if i < len(ps) else 0):
+                    continue
+                for r in v[1]:
+                    for src in st.views.get(r, ()):
+                        for regs in outs:
+                            for w in regs:
+                                if w[0] == "P" and (w == src or self.may_alias(w, src, ne)):
+                                    if not self.fine:
+                                        continue
+                                    self.rep("R-CLOBBER", line, "view-alias:%s:%s" % (self.rname(src), self.rname(w)),
+                                             "%s is called at line %d with a local view that borrows the limbs of %s as an input and with %s, which "
+                                             "may be the same variable, as destination: the callee detects aliasing by object identity, so it "
+                                             "overwrites limbs it still has to read" % (c, line, self.rname(src), self.rname(w)))
         for regs in outs:
             self.const_write(regs, st, ne, line, "object is passed to %s as a destination" % (c or "a callee"))
             # an object handed to a callee as destination: overwritten, possibly reallocated
@@ -727,6 +773,14 @@ class Analysis:
                     # keep it in free_me while it is still a source), so nothing goes stale here
                     if rv and rv[0] == "limb" and any(x[0][0] == "T" for x in rv[1]):
                         self.tmp_backed |= set(base[1])
+                    if rv and rv[0] == "limb":
+                        borrowed = frozenset(x[0] for x in rv[1] if x[0][0] == "P")
+                        for r in base[1]:
+                            if r[0] == "L":
+                                if borrowed:
+                                    st.views[r] = st.views.get(r, frozenset()) | borrowed
+                                else:
+                                    st.views.pop(r, None)
                     # the stored variable keeps naming the new block only: pointers fetched earlier from an object that may be
                     # the same variable still point to the OLD block, which stays allocated (free_me)
             return
@@ -1066,6 +1120,7 @@ class Analysis:
                 raise AnalysisBroken("aliasflow: fixpoint budget exceeded in %s" % fn["name"])
             bid = max(work)
             work.discard(bid)
+            self.cur_block = bid
             b = self.blocks[bid]
             outs = []
             for (ne, _ok), st0 in list(IN[bid].items()):
